@@ -164,6 +164,9 @@ impl Builtins {
                                 pos.clone(),
                             )
                         })?;
+                        // Same as for a build: the one output per file is
+                        // counted per evaluation of the file.
+                        env.borrow_mut().reset_out_lock_for_path(normalized.as_path());
                         // The file is being imported from here on, a chain
                         // of imports that leads back to it is a cycle.
                         let mut stack_for_import = import_stack.clone();
